@@ -119,7 +119,8 @@ def nonprom_table():
     }
 
 
-NONPROM_NAMES = list(nonprom_table())
+NONPROM = nonprom_table()
+NONPROM_NAMES = list(NONPROM)
 
 
 # ---- scratch files ----------------------------------------------------------------------------
@@ -370,7 +371,7 @@ def pick_route(rng, clsname, bits, lsb0, short_ok=False):
     c = ['bin', 'bin', 'token_bin', 'list', 'tuple', 'gen', 'truthy', 'bitarray_auto', 'frozenbitarray_auto',
          'slice', 'slice', 'copy_from']
     if L % 4 == 0:
-        c += ['hex', 'token_hex']
+        c += ['hex'] + (['token_hex'] if L else [])
     if L % 3 == 0:
         c += ['oct']
     if L > 0:
@@ -504,9 +505,9 @@ def gen_objs_case(ctx):
 def rhs_for(rng, bits):
     L = len(bits)
     kinds = ['str_bin', 'str_bin', 'str_mix', 'list', 'tuple', 'gen', 'truthy', 'bitarray', 'frozenbitarray']
-    if L % 4 == 0:
+    if L % 4 == 0 and L:
         kinds += ['str_hex', 'str_hex']
-    if L % 3 == 0:
+    if L % 3 == 0 and L:
         kinds += ['str_oct']
     if 0 < L <= 5000:
         kinds += ['str_uint']
@@ -642,14 +643,20 @@ def judge_objs(ctx, c):
             obs = [OB(x) for x in objs]
             for spec, o in zip(c['objs'], obs):
                 if o != spec['bits']:
-                    ctx.extra['route_bits_differ_from_intended'] = ctx.extra.get('route_bits_differ_from_intended', 0) + 1
+                    d = ctx.extra.setdefault('route_bits_differ_from_intended', {})
+                    k = spec['route'] + ('/lsb0' if lsb0 else '')
+                    d[k] = d.get(k, 0) + 1
             hashable = [type(x).__name__ in IMMUTABLE for x in objs]
             nontrivial = all(obs) and all(c['objs'][i] != c['objs'][j] for i in range(n) for j in range(i))
             clean = True            # every == observation agreed with the oracle
 
-            def round_(tag):
+            def round_(prev=None):
+                """prev=None: judge against the oracle.  prev=(E, N) of the first round: judge only that
+                moving the stream positions did not change any answer."""
                 nonlocal clean
+                tag = '' if prev is None else '-after-pos-move'
                 E = [[None] * n for _ in range(n)]
+                N = [[None] * n for _ in range(n)]
                 for i, x in enumerate(objs):
                     ic = stores[i]
                     g1 = call(lambda: x == x)
@@ -660,13 +667,28 @@ def judge_objs(ctx, c):
                         ctx.ok(('reflexive', c['objs'][i]['cls'], c['objs'][i]['route']), bool(obs[i]), 2)
                     else:
                         ctx.mismatch(f'C13|eq|{ic}|irreflexive', sc, f'object {i}: x==x -> {g1[1]!r}, x!=x -> {g2[1]!r}')
-                    E[i][i] = True
                 for i, j in itertools.permutations(range(n), 2):
                     x, y = objs[i], objs[j]
                     ic = worst(stores[i], stores[j])
-                    exp = obs[i] == obs[j]
                     ge = call(lambda: x == y)
+                    gn = call(lambda: x != y)
                     ctx.op('eq' + tag, 'ok' if ge[0] == 'ok' else type(ge[1]).__name__)
+                    ctx.op('ne' + tag, 'ok' if gn[0] == 'ok' else type(gn[1]).__name__)
+                    E[i][j] = ge[1] if ge[0] == 'ok' else ('raised', type(ge[1]).__name__)
+                    N[i][j] = gn[1] if gn[0] == 'ok' else ('raised', type(gn[1]).__name__)
+                    if prev is not None:
+                        if E[i][j] is prev[0][i][j] or E[i][j] == prev[0][i][j]:
+                            ctx.ok(('eq-pos', c['objs'][i]['cls'], c['objs'][j]['cls'], bool(E[i][j])), nontrivial)
+                        else:
+                            ctx.mismatch(f'C13|eq-after-pos-move|{ic}|answer-depends-on-pos', sc,
+                                         f'objects {i}=={j}: {prev[0][i][j]!r} before, {E[i][j]!r} after moving pos')
+                        if N[i][j] is prev[1][i][j] or N[i][j] == prev[1][i][j]:
+                            ctx.ok()
+                        else:
+                            ctx.mismatch(f'C13|ne-after-pos-move|{ic}|answer-depends-on-pos', sc,
+                                         f'objects {i}!={j}: {prev[1][i][j]!r} before, {N[i][j]!r} after moving pos')
+                        continue
+                    exp = obs[i] == obs[j]
                     sh = shape_bool(ge, exp)
                     if sh is None:
                         a, b = c['objs'][i], c['objs'][j]
@@ -675,22 +697,21 @@ def judge_objs(ctx, c):
                                 hashable[i] and hashable[j], lsb0, exp), nontrivial, 0)
                     else:
                         clean = False
-                        ctx.mismatch(f'C13|eq{tag}|{ic}|{sh}', sc,
+                        ctx.mismatch(f'C13|eq|{ic}|{sh}', sc,
                                      f'objects {i}=={j}: got {ge[1]!r}, bits agree: {exp} (len {len(obs[i])} vs {len(obs[j])})')
-                    E[i][j] = ge[1] if ge[0] == 'ok' else None
-                    gn = call(lambda: x != y)
-                    ctx.op('ne' + tag, 'ok' if gn[0] == 'ok' else type(gn[1]).__name__)
                     if gn[0] == 'exc':
-                        ctx.mismatch(f'C13|ne{tag}|{ic}|raised:{type(gn[1]).__name__}', sc, f'objects {i}!={j}')
+                        ctx.mismatch(f'C13|ne|{ic}|raised:{type(gn[1]).__name__}', sc, f'objects {i}!={j}')
                     elif type(gn[1]) is not bool:
-                        ctx.mismatch(f'C13|ne{tag}|{ic}|non-bool', sc, f'objects {i}!={j} -> {gn[1]!r}')
+                        ctx.mismatch(f'C13|ne|{ic}|non-bool', sc, f'objects {i}!={j} -> {gn[1]!r}')
                     elif ge[0] == 'ok' and type(ge[1]) is bool and gn[1] is ge[1]:
-                        ctx.mismatch(f'C13|ne{tag}|{ic}|not-negation-of-eq', sc, f'objects {i},{j}: == {ge[1]} and != {gn[1]}')
+                        ctx.mismatch(f'C13|ne|{ic}|not-negation-of-eq', sc, f'objects {i},{j}: == {ge[1]} and != {gn[1]}')
                     else:
                         ctx.ok()
+                if prev is not None:
+                    return E, N
                 for i, j in itertools.combinations(range(n), 2):
-                    if E[i][j] is not None and E[j][i] is not None and bool(E[i][j]) != bool(E[j][i]):
-                        ctx.mismatch(f'C13|eq{tag}|{worst(stores[i], stores[j])}|asymmetric', sc,
+                    if type(E[i][j]) is bool and type(E[j][i]) is bool and E[i][j] is not E[j][i]:
+                        ctx.mismatch(f'C13|eq|{worst(stores[i], stores[j])}|asymmetric', sc,
                                      f'{i}=={j}: {E[i][j]!r} but {j}=={i}: {E[j][i]!r}')
                     else:
                         ctx.ok()
@@ -698,10 +719,10 @@ def judge_objs(ctx, c):
                     ctx.op('transitive')
                     for i, j, k in itertools.permutations(range(n), 3):
                         if E[i][j] is True and E[j][k] is True and E[i][k] is False:
-                            ctx.mismatch(f'C13|eq{tag}|{worst(*stores)}|intransitive', sc, f'{i}=={j}=={k} but {i}!={k}')
+                            ctx.mismatch(f'C13|eq|{worst(*stores)}|intransitive', sc, f'{i}=={j}=={k} but {i}!={k}')
                         else:
                             ctx.ok(('transitive', c['rel']), nontrivial)
-                return E
+                return E, N
 
             def hashes(tag, E):
                 H = [None] * n
@@ -722,8 +743,8 @@ def judge_objs(ctx, c):
                         H[i] = g[1]
                         ctx.ok()
                 for i, j in itertools.combinations(range(n), 2):
-                    if H[i] is None or H[j] is None:
-                        continue
+                    if tag or H[i] is None or H[j] is None:
+                        continue                  # after a pos move only "hash unchanged" is judged (below)
                     if obs[i] == obs[j] and E[i][j] is True and E[j][i] is True:
                         st = worst(stores[i], stores[j])
                         hc = st if st != 'memory' else lclass(len(obs[i]))
@@ -736,7 +757,7 @@ def judge_objs(ctx, c):
                                          f'objects {i},{j} are == (len {len(obs[i])}) but hashes {H[i]} != {H[j]}')
                 return H
 
-            E = round_('')
+            E, N = round_()
             H = hashes('', E)
 
             # ---- unhashable classes -----------------------------------------------------------------
@@ -760,7 +781,7 @@ def judge_objs(ctx, c):
             # ---- containers --------------------------------------------------------------------------
             for i, j in itertools.permutations(range(n), 2):
                 x, y = objs[i], objs[j]
-                if E[i][j] is None or E[j][i] is None or E[i][j] != (obs[i] == obs[j]) or E[j][i] != E[i][j]:
+                if type(E[i][j]) is not bool or E[i][j] is not (obs[i] == obs[j]) or E[j][i] is not E[i][j]:
                     continue                  # == itself is already reported for this pair
                 exp = E[i][j]
                 st = worst(stores[i], stores[j])
@@ -804,8 +825,8 @@ def judge_objs(ctx, c):
                     x.pos = spec['pos2']
                     moved = True
             if moved:
-                E2 = round_('-after-pos-move')
-                H2 = hashes('-after-pos-move', E2)
+                round_((E, N))
+                H2 = hashes('-after-pos-move', E)
                 for i in range(n):
                     if H[i] is not None and H2[i] is not None:
                         if H[i] != H2[i]:
@@ -815,7 +836,6 @@ def judge_objs(ctx, c):
                         else:
                             ctx.ok(('hash-pos', c['objs'][i]['cls'], lbucket(len(obs[i]))), bool(obs[i]))
             ctx.state(tuple(len(o) for o in obs), tuple(hash(o) for o in obs), lsb0)
-            del objs, built
     finally:
         drop_files(made)
 
@@ -854,16 +874,15 @@ def judge_operand(ctx, c):
                     ctx.ok(('operand', c['obj']['cls'], kind, order, exp, lbucket(len(xb))), bool(xb) and bool(c['rhs'][1]))
                 else:
                     ctx.mismatch(f'C13|eq|{ic}|{order}:{sh}', sc, f'got {ge[1]!r}, bits agree: {exp}')
-                sh = shape_bool(gn, not exp)
-                if sh is None:
+                if gn[0] == 'exc':
+                    ctx.mismatch(f'C13|ne|{ic}|{order}:raised:{type(gn[1]).__name__}', sc, repr(gn[1])[:200])
+                elif type(gn[1]) is not bool:
+                    ctx.mismatch(f'C13|ne|{ic}|{order}:non-bool', sc, f'got {gn[1]!r}')
+                elif ge[0] == 'ok' and type(ge[1]) is bool and gn[1] is ge[1]:
+                    # the two operands are built identically, so != must be the negation of ==
+                    ctx.mismatch(f'C13|ne|{ic}|{order}:not-negation-of-eq', sc, f'== {ge[1]!r} and != {gn[1]!r}')
+                else:
                     ctx.ok()
-                elif sh.startswith('raised') or sh == 'non-bool':
-                    ctx.mismatch(f'C13|ne|{ic}|{order}:{sh}', sc, f'got {gn[1]!r}')
-                elif ge[0] == 'ok' and gn[1] is ge[1]:
-                    ctx.mismatch(f'C13|ne|{ic}|{order}:not-negation-of-eq', sc, f'== {ge[1]!r} and != {gn[1]!r}')
-                elif shape_bool(ge, exp) is None:
-                    # == was right for its operand, != wrong for an identically built one
-                    ctx.mismatch(f'C13|ne|{ic}|{order}:not-negation-of-eq', sc, f'== {ge[1]!r} and != {gn[1]!r}')
             ctx.state('operand', len(xb), kind, exp)
     finally:
         for fh in opened:
@@ -875,7 +894,7 @@ def judge_operand(ctx, c):
 
 
 def judge_nonprom(ctx, c):
-    cat, v = nonprom_table()[c['val']]
+    cat, v = NONPROM[c['val']]
     bits = c['obj']['bits']
     if c['val'] == 'int-uint':
         v = int(bits, 2) if bits else 0
@@ -958,6 +977,8 @@ def directed(ctx):
         for cls in util.CLASS_NAMES:
             cases.append({'kind': 'objs', 'rel': 'equal', 'lsb0': False, 'objs': [
                 O(cls, 'file_short', bits, [tail]), O('Bits', 'bin', bits), O('ConstBitStream', 'file_short', bits, [tail])]})
+        cases.append({'kind': 'objs', 'rel': 'prefix-of-file', 'lsb0': False, 'objs': [
+            O('Bits', 'file_short', bits, [tail]), O('Bits', 'bin', pad8(bits + filler(tail), '0'))]})
     # thresholds: equal triples by three different routes, hashable classes, every listed length
     for L in [0, 1, 7, 8, 9, 1999, 2000, 2001, 3599, 3600, 3601, 5000, 20000]:
         bits = rb(rng, L)
@@ -980,7 +1001,7 @@ def directed(ctx):
             cases.append({'kind': 'objs', 'rel': 'trail_zero', 'lsb0': False, 'objs': [
                 O('Bits', 'bin', bits), O('Bits', 'bin', bits + '0' * (8 - L % 8)), O('ConstBitStream', 'bin', bits + '0')]})
     for cls in util.CLASS_NAMES:
-        for rhs in (['str_bin', '', 0], ['str_bin', '', 1], ['list', '', 0], ['bytes', '', 0], ['str_hex', '00ff'.replace('f', '1111').replace('0', '0000'), 4]):
+        for rhs in (['str_bin', '', 0], ['str_bin', '', 1], ['list', '', 0], ['bytes', '', 0], ['str_hex', '0' * 8 + '1' * 8, 4]):
             cases.append({'kind': 'operand', 'rel': 'equal', 'obj': O(cls, 'bin', rhs[1]), 'rhs': rhs})
     for c in cases:
         ctx.run_case(judge, c)
@@ -1032,7 +1053,7 @@ def run(ctx):
         enumerate_nonprom(ctx)
         enumerate_badstr(ctx)
         enumerate_small_pairs(ctx)
-        n = ctx.scale(6000, 240000)
+        n = ctx.scale(36000, 1200000)
         for i in range(n):
             c = gen_objs_case(ctx) if ctx.rng.random() < 0.72 else gen_operand_case(ctx)
             ctx.run_case(judge, c)
